@@ -129,6 +129,22 @@ v('c11r6-osc-sep', 'C11', 'C11-R6', 'src/ansi.go', "(s[i+j] == ';' || s[i+j] == 
 v('c11r7-no-carry', 'C11', 'C11-R7', 'src/core.go', "\t\t\t\tlineAnsiState = newState\n", "\t\t\t\t_ = newState\n")
 v('c11r7-raw-text', 'C11', 'C11-R7', 'src/core.go', "\t\t\t\ttrimmed, _, _ := extractColor(byteString(data), nil, nil)\n\t\t\t\treturn util.ToChars(stringBytes(trimmed)), nil", "\t\t\t\ttrimmed, _, _ := extractColor(byteString(data), nil, nil)\n\t\t\t\t_ = trimmed\n\t\t\t\treturn util.ToChars(data), nil")
 
+# ---- C15
+v('c15r1-drop-selected', 'C15', 'C15-R1', 'src/terminal.go', "\t\tprevLine.selected == newLine.selected &&\n", "")
+v('c15r1-drop-label', 'C15', 'C15-R1', 'src/terminal.go', "\t\tprevLine.label == newLine.label &&\n", "")
+v('c15r1-drop-firstline', 'C15', 'C15-R1', 'src/terminal.go', "forceRedraw := !prevLine.valid || prevLine.other || prevLine.firstLine != newLine.firstLine", "forceRedraw := !prevLine.valid || prevLine.other")
+v('c15r1-self-compare', 'C15', 'C15-R1', 'src/terminal.go', "\t\tprevLine.result == newLine.result {", "\t\tprevLine.result == prevLine.result {")
+v('c15r2-drop-label-case', 'C15', 'C15-R2', 'src/terminal.go', "\t\t\t\t\tcase reqRedrawListLabel:\n\t\t\t\t\t\tt.printLabel(t.wborder, t.listLabel, t.listLabelOpts, t.listLabelLen, t.listBorderShape, true)\n", "")
+v('c15r2-header-no-print', 'C15', 'C15-R2', 'src/terminal.go', "\t\t\t\t\t\tif !t.resizeIfNeeded() {\n\t\t\t\t\t\t\tt.printHeader()\n\t\t\t\t\t\t}\n", "\t\t\t\t\t\tt.resizeIfNeeded()\n")
+v('c15r2-printall-no-header', 'C15', 'C15-R2', 'src/terminal.go', "\tt.printInfo()\n\tt.printHeader()\n\tt.printPreview()\n}", "\tt.printInfo()\n\tt.printPreview()\n}")
+v('c15r2-info-flag', 'C15', 'C15-R2', 'src/terminal.go', "\t\t\t\t\tcase reqInfo:\n\t\t\t\t\t\tinfo = true\n", "\t\t\t\t\tcase reqInfo:\n")
+v('c15r3-early-return', 'C15', 'C15-R3', 'src/terminal.go', "\t\t\t\tt.uiMutex.Lock()\n\t\t\t\tt.mutex.Lock()\n\t\t\t\tinfo := false\n", "\t\t\t\tt.uiMutex.Lock()\n\t\t\t\tt.mutex.Lock()\n\t\t\t\tif t.suppress && len(keys) == 1 && keys[0] == int(reqInfo) {\n\t\t\t\t\tt.printInfo()\n\t\t\t\t\tt.mutex.Unlock()\n\t\t\t\t\tt.uiMutex.Unlock()\n\t\t\t\t\treturn\n\t\t\t\t}\n\t\t\t\tinfo := false\n")
+v('c15r4-cache-kept', 'C15', 'C15-R4', 'src/terminal.go', "\tt.prevLines = make([]itemLine, screenHeight)\n", "\tif len(t.prevLines) != screenHeight {\n\t\tt.prevLines = make([]itemLine, screenHeight)\n\t}\n")
+v('c15r4-print-before-resize', 'C15', 'C15-R4', 'src/terminal.go', "\tt.resizeWindows(t.forcePreview, true)\n\tt.printList()\n\tt.printPrompt()", "\tt.printPrompt()\n\tt.resizeWindows(t.forcePreview, true)\n\tt.printList()")
+v('c15r4-clear-no-redraw', 'C15', 'C15-R4', 'src/terminal.go', "\t\t\t\t\tt.mutex.Unlock()\n\t\t\t\t\tt.reqBox.Set(reqReinit, nil)\n\t\t\t\t\treturn false", "\t\t\t\t\tt.mutex.Unlock()\n\t\t\t\t\tt.reqBox.Set(reqList, nil)\n\t\t\t\t\treturn false")
+v('c15r5-cy-no-offset', 'C15', 'C15-R5', 'src/terminal.go', "line = t.printItem(item, line, maxy, itemCount, itemCount == t.cy-t.offset, barRange)", "line = t.printItem(item, line, maxy, itemCount, itemCount == t.cy, barRange)")
+v('c15r5-selected-by-row', 'C15', 'C15-R5', 'src/terminal.go', "\t_, selected := t.selected[item.Index()]\n\tlabel := \"\"", "\t_, selected := t.selected[int32(index)]\n\tlabel := \"\"")
+
 # ---- benign edits (must stay silent)
 b('rename-previousInput', ['C08', 'C09'], 'src/terminal.go', 'previousInput', 'inputBefore', count=0)
 b('rename-leftover', ['C06'], 'src/reader.go', 'leftover', 'carry', count=0)
@@ -149,6 +165,11 @@ b('ansi-rename-state256', ['C11'], 'src/ansi.go', 'state256', 'extState', count=
 b('ansi-finals-reorder', ['C11'], 'src/ansi.go', "if 'a' <= c && c <= 'z' || 'A' <= c && c <= 'Z' || c == '@' {", "if c == '@' || 'A' <= c && c <= 'Z' || 'a' <= c && c <= 'z' {")
 b('ansi-attr-compound', ['C11'], 'src/ansi.go', "state.attr = state.attr | tui.Bold", "state.attr |= tui.Bold")
 b('ansi-colour-switch', ['C11'], 'src/ansi.go', "\t\t\t\t\tif num >= 30 && num <= 37 {\n\t\t\t\t\t\tstate.fg = tui.Color(num - 30)\n\t\t\t\t\t} else if num >= 40 && num <= 47 {\n\t\t\t\t\t\tstate.bg = tui.Color(num - 40)\n\t\t\t\t\t} else if", "\t\t\t\t\tif num >= 40 && num <= 47 {\n\t\t\t\t\t\tstate.bg = tui.Color(num - 40)\n\t\t\t\t\t} else if num >= 30 && num <= 37 {\n\t\t\t\t\t\tstate.fg = tui.Color(num - 30)\n\t\t\t\t\t} else if")
+
+b('render-compare-order', ['C15'], 'src/terminal.go', "\t\tprevLine.current == newLine.current &&\n\t\tprevLine.selected == newLine.selected &&\n", "\t\tnewLine.selected == prevLine.selected &&\n\t\tprevLine.current == newLine.current &&\n")
+b('render-printall-order', ['C15'], 'src/terminal.go', "\tt.printList()\n\tt.printPrompt()\n\tt.printInfo()\n", "\tt.printPrompt()\n\tt.printInfo()\n\tt.printList()\n")
+b('render-rename-info', ['C15'], 'src/terminal.go', "\t\t\t\tinfo := false\n", "\t\t\t\tinfo := false || false\n")
+b('render-header-flip', ['C15'], 'src/terminal.go', "\t\t\t\t\t\tif !t.resizeIfNeeded() {\n\t\t\t\t\t\t\tt.printHeader()\n\t\t\t\t\t\t}\n", "\t\t\t\t\t\tif resized := t.resizeIfNeeded(); resized {\n\t\t\t\t\t\t\tbreak\n\t\t\t\t\t\t}\n\t\t\t\t\t\tt.printHeader()\n")
 
 def build(entries, outdir, kind):
     os.makedirs(outdir, exist_ok=True)
